@@ -49,7 +49,10 @@ def simulate(d, regmap, memmap, inputs, dflt, track=None):
     traced and the others are seen through inspect alone).  A firing rtl_assert added by gen_designs.decorate
     is caught and stepping goes on: the cycle it fired in still happened."""
     block = d.block
-    tracer = pyrtl.SimulationTrace(wires_to_track='all' if track is None else list(track), block=block)
+    if track == 'none':      # the documented tracer=None: nothing recorded, everything read through inspect
+        tracer = None
+    else:
+        tracer = pyrtl.SimulationTrace(wires_to_track='all' if track is None else list(track), block=block)
     sim = pyrtl.Simulation(tracer=tracer, register_value_map=dict(regmap),
                            memory_value_map={m: dict(c) for m, c in memmap.items()},
                            default_value=dflt, block=block)
@@ -141,6 +144,8 @@ def directed_case(ctx, i):
              if (nm in keep or rng.random() < 0.5) and not (nm.startswith(('dangle', 'raw')) and nm not in keep)]
     if not track:
         track = [d.inputs[0]]
+    if i % 4 == 3:
+        track = 'none'
     return d, regmap, memmap, inputs, 0, track
 
 
@@ -172,6 +177,13 @@ def run(ctx):
             ctx.spec_violation('api-built-design-rejected', 'Simulation rejected an API-built design: %s' % e,
                                {'seed': ctx.seed, 'design': i})
             continue
+        except Exception as e:    # not even a PyRTL error: the simulator crashed on a well-formed design
+            ctx.spec_violation('simulation-crashed:%s' % type(e).__name__,
+                               'Simulation (tracer=%s) crashed on a well-formed design: %r' % (
+                                   'None' if track == 'none' else 'all' if track is None else 'partial', e),
+                               {'seed': ctx.seed, 'design': i, 'nets': [str(nn) for nn in d.block.logic],
+                                'inputs': inputs})
+            continue
         order = list(sim.ordered_nets)
         if set(order) != set(d.block.logic) or len(order) != len(d.block.logic):
             # the simulator does not evaluate exactly the block's nets: the reference semantics is still
@@ -189,7 +201,8 @@ def run(ctx):
         # earliest one in dependency order, so the signature names the op that computed a wrong value
         rank = {nn.dests[0].name: k for k, nn in enumerate(order) if nn.dests}
         by_dep = sorted(range(len(names)), key=lambda k: rank.get(names[k], -1))
-        traced = set(tracer.trace)
+        traced = set(tracer.trace) if tracer is not None else set()
+        ctx.count('tracer', 'None' if tracer is None else ('all' if track is None else 'partial'))
         impl_trace = [[tracer.trace[nm][t] if nm in traced else seen[t][nm] for nm in names]
                       for t in range(len(inputs))]
         ctx.count('asserts-fired', fired)
